@@ -8,6 +8,8 @@ func main() {
 	mon.Main(map[string]func(*mon.Run){
 		"C02": checkC02,
 		"C03": checkC03,
+		"C04": checkC04,
+		"C10": checkC10,
 		"C22": checkC22,
 	})
 }
